@@ -428,6 +428,7 @@ arr_time = z3.Function('arrival_time', I, z3.RealSort())
 
 def t_get_next_batch(E):
     engine(E, {'C10'})
+    E.z3_obligation_timeout_ms = 2500
     f = method(E, '_get_next_batch')
     E.cur_func = f.qualname
     Qn = f.qualname
